@@ -162,7 +162,7 @@ def distribution(lines):
 PROP = {
     "id": "C05",
     "prop_file": "theories/Props/C05.v",
-    "proof_files": ["theories/Proofs/ParserClosed.v", "theories/Proofs/ParserProofs.v", "theories/Proofs/LexFacts.v", "theories/Proofs/TypingProofs.v"],
+    "proof_files": ["theories/Proofs/ParserClosed.v", "theories/Proofs/FuelProofs.v", "theories/Proofs/ParserProofs.v", "theories/Proofs/LexFacts.v", "theories/Proofs/TypingProofs.v"],
     "gen": gen,
     "compare_spec": False,
     "post": post,
